@@ -6,6 +6,7 @@ package tlsutils
 //vsym:model crypto/x509.NewCertPool m18NewCertPool
 //vsym:model (*crypto/x509.CertPool).AppendCertsFromPEM m18AppendCerts
 //vsym:model github.com/theparanoids/crypki/certreload.NewCertReloader m18NewCertReloader
+//vsym:model crypto/x509.SystemCertPool m18SystemCertPool
 //vsym:replay same-harness
 //vsym:expect-cover C18.config-ok C18.ca-unreadable C18.ca-unparsable C18.reloader-fails C18.no-ca-files
 //vsym:bound H18_config: 0..3 CA files with symbolic 1-byte names, each readable or not and parsable or not; client certificate / key paths symbolic 1-byte names; the certificate reloader fails or not
@@ -67,6 +68,13 @@ func m18NewCertPool() *x509.CertPool {
 	p := new(x509.CertPool)
 	m18Pools = append(m18Pools, p)
 	return p
+}
+
+var m18SystemPool *x509.CertPool
+
+func m18SystemCertPool() (*x509.CertPool, error) {
+	m18SystemPool = new(x509.CertPool) // stands for the host's trust store
+	return m18SystemPool, nil
 }
 
 func m18AppendCerts(p *x509.CertPool, pemCerts []byte) bool {
@@ -183,6 +191,7 @@ func H18_config() {
 	if vIsNative() {
 		vAssert(len(cfg.RootCAs.Subjects()) == n, "C18.root-cas-are-exactly-the-configured-files")
 	} else {
+		vAssert(m18SystemPool == nil, "C18.system-trust-store-not-consulted")
 		vAssert(len(m18Pools) == 1 && cfg.RootCAs == m18Pools[0], "C18.root-cas-is-the-pool-built-in-this-call")
 		vAssert(len(m18Appended) == n, "C18.root-cas-are-exactly-the-configured-files")
 		for i := 0; i < n && i < len(m18Appended); i++ {
